@@ -326,6 +326,53 @@ async fn test_copy_object_replaces_object() -> Result<()> {
 
 #[tokio::test]
 #[tracing::instrument]
+async fn test_delete_objects() -> Result<()> {
+    use aws_sdk_s3::types::Delete;
+    use aws_sdk_s3::types::ObjectIdentifier;
+
+    let _guard = serial().await;
+
+    let c = Client::new(config());
+    let bucket = format!("test-delete-objects-{}", Uuid::new_v4());
+    let bucket = bucket.as_str();
+    create_bucket(&c, bucket).await?;
+
+    for key in ["a.txt", "b.txt"] {
+        c.put_object()
+            .bucket(bucket)
+            .key(key)
+            .body(ByteStream::from_static(b"hello"))
+            .send()
+            .await?;
+    }
+
+    // a key named twice and a key that does not exist are reported as deleted like the others
+    {
+        let keys = ["a.txt", "missing.txt", "a.txt", "b.txt"];
+        let mut delete = Delete::builder();
+        for key in keys {
+            delete = delete.objects(ObjectIdentifier::builder().key(key).build()?);
+        }
+
+        let ans = c.delete_objects().bucket(bucket).delete(delete.build()?).send().await?;
+
+        let deleted: Vec<&str> = ans.deleted().iter().filter_map(|d| d.key()).collect();
+        assert_eq!(deleted, keys);
+        assert!(ans.errors().is_empty());
+    }
+
+    {
+        let ans = c.list_objects_v2().bucket(bucket).send().await?;
+        assert!(ans.contents().is_empty());
+    }
+
+    delete_bucket(&c, bucket).await?;
+
+    Ok(())
+}
+
+#[tokio::test]
+#[tracing::instrument]
 async fn test_multipart() -> Result<()> {
     let _guard = serial().await;
 
